@@ -14,8 +14,10 @@ else:
 print(f"""You are helping to evaluate a verification framework for the Rust repository filecoin-project/builtin-actors
 (Filecoin's on-chain built-in actors). You have your own scratch git worktree of the repository at {wt}
 (a detached checkout of the pinned commit). Work ONLY inside {wt} and write your deliverables to {out}/ (create it).
-Do NOT read or write anything under /verif or /repo (except that you may `cp -a /repo/target {wt}/target` once to start
-from a warm build cache). There is no network; use `--offline` with cargo. Use at most 6 parallel jobs (`-j 6`).
+Do NOT read or write anything under /verif or /repo. There is no network; use `--offline` with cargo. Use at most 6 parallel jobs
+(`-j 6`). DISK IS TIGHT: before ANY cargo command run `export CARGO_PROFILE_DEV_DEBUG=0 CARGO_PROFILE_TEST_DEBUG=0 CARGO_INCREMENTAL=0`
+(in every shell invocation, e.g. prefix each command with it) so that build output stays small; never copy other target directories.
+Never use `pkill`/`killall` on cargo or rustc (other jobs share this machine).
 
 PROPERTY ({p['id']}): {p['title']}
 Statement: {p['statement']}
